@@ -12065,13 +12065,18 @@ CK_RV SoftHSM::CreateObject(CK_SESSION_HANDLE hSession, CK_ATTRIBUTE_PTR pTempla
 	if (object == NULL || !p11object->init(object))
 	{
 		delete p11object;
+		if (object != NULL) object->destroyObject();
 		return CKR_GENERAL_ERROR;
 	}
 
 	rv = p11object->saveTemplate(token, isPrivate != CK_FALSE, attribs,attribsCount,op);
 	delete p11object;
 	if (rv != CKR_OK)
+	{
+		// Do not leave the object behind that was created for the rejected template
+		object->destroyObject();
 		return rv;
+	}
 
 	if (op == OBJECT_OP_CREATE)
 	{
